@@ -25,6 +25,7 @@ def tell (tag : String) : Logged Unit := modify fun e => { e with log := e.log +
 inductive Val
   | item (i : Item)
   | list (xs : List Val)
+  | raised (cls : String)   -- the framework code raised (post-processing a value it cannot handle)
   | bad
 
 /-- the caller's arguments: an optional index and a number -/
@@ -37,6 +38,9 @@ inductive Eff
   | gen (b c d : Rat)      -- args ↦ b + c·i + d·a (a Series over the index, or a number without index)
   | lgen (b c d : Rat)     -- args ↦ [that]
   | mark (t : Rat)         -- args ↦ [t]
+  | fgen (b c d : Rat) (k : Nat)   -- args ↦ DataFrame over the index, column j: (b + j/4) + c·i + d·a
+  | lfgen (b c d : Rat) (k : Nat)  -- args ↦ [that]
+  | agen (b c d : Rat)     -- args ↦ numpy array over the index (no labels): b + c·i + d·a
   | aff (p q r s : Rat)    -- (args, v) ↦ p·v + q + r·i + s·a
   | sq                     -- (args, v) ↦ v·v
   | app (t : Rat)          -- (args, v) ↦ v ++ [t]
@@ -46,8 +50,22 @@ def genItem (b c d : Rat) (args : Args) : Item :=
   | some idx => .se (idx.map fun i => (i, b + c * (i : Rat) + d * args.a))
   | none => .sc (b + d * args.a)
 
+def genFrame (b c d : Rat) (k : Nat) (args : Args) : Option Item :=
+  args.idx.map fun idx => .fr ((List.range k).map fun j =>
+    (s!"c{j}", idx.map fun i => (i, (b + (j : Rat) / 4) + c * (i : Rat) + d * args.a)))
+
 def Eff.run (e : Eff) (args : Args) (prev : Option Val) : Val :=
   match e, prev with
+  | .fgen b c d k, none => match genFrame b c d k args with | some f => .item f | none => .bad
+  | .lfgen b c d k, none => match genFrame b c d k args with | some f => .list [.item f] | none => .bad
+  | .agen b c d, none => match args.idx with
+    | some idx => .item (.arr (idx.map fun (i : Nat) => b + c * (i : Rat) + d * args.a))
+    | none => .bad
+  | .aff p q r s, some (.item (.fr cols)) =>
+    .item (.fr (cols.map fun (c : String × Series) => (c.1, c.2.map fun (i, x) => (i, p * x + q + r * (i : Rat) + s * args.a))))
+  | .aff p q _ s, some (.item (.arr xs)) => .item (.arr (xs.map fun x => p * x + q + s * args.a))
+  | .sq, some (.item (.fr cols)) => .item (.fr (cols.map fun (c : String × Series) => (c.1, c.2.map fun (i, x) => (i, x * x))))
+  | .sq, some (.item (.arr xs)) => .item (.arr (xs.map fun x => x * x))
   | .gen b c d, none => .item (genItem b c d args)
   | .lgen b c d, none => .list [.item (genItem b c d args)]
   | .mark t, none => .list [.item (.sc t)]
@@ -84,6 +102,8 @@ def rescaleD : Val → Logged Val := fun v => do
   let env ← get
   match v with
   | .item i => pure (match rescale env.steps i with | some r => .item r | none => .bad)
+  -- a Python list / tuple: `hasattr(value, "index")` holds (the method), `value.mul` does not exist
+  | .list _ => pure (.raised "AttributeError")
   | _ => pure .bad
 
 def unionD : Val → Logged Val := fun v =>
@@ -106,6 +126,9 @@ def eff? (s : String) : Option Eff :=
   | ["gen", b, c, d] => do pure (.gen (← rat? b) (← rat? c) (← rat? d))
   | ["lgen", b, c, d] => do pure (.lgen (← rat? b) (← rat? c) (← rat? d))
   | ["mark", t] => do pure (.mark (← rat? t))
+  | ["fgen", b, c, d, k] => do pure (.fgen (← rat? b) (← rat? c) (← rat? d) (← k.toNat?))
+  | ["lfgen", b, c, d, k] => do pure (.lfgen (← rat? b) (← rat? c) (← rat? d) (← k.toNat?))
+  | ["agen", b, c, d] => do pure (.agen (← rat? b) (← rat? c) (← rat? d))
   | ["aff", p, q, r, s] => do pure (.aff (← rat? p) (← rat? q) (← rat? r) (← rat? s))
   | ["sq"] => some .sq
   | ["app", t] => do pure (.app (← rat? t))
@@ -113,13 +136,18 @@ def eff? (s : String) : Option Eff :=
 
 def showRat (q : Rat) : String := s!"{q.num}/{q.den}"
 
+def showSeries (v : Series) : String := ",".intercalate (v.map fun (i, x) => s!"{i}={showRat x}")
+
 def showItem : Item → String
   | .sc x => "s:" ++ showRat x
-  | .se v => "v:" ++ ",".intercalate (v.map fun (i, x) => s!"{i}={showRat x}")
+  | .se v => "v:" ++ showSeries v
+  | .fr cols => "f:" ++ "|".intercalate (cols.map fun (c : String × Series) => s!"{c.1}[{showSeries c.2}]")
+  | .arr xs => "a:" ++ ",".intercalate (xs.map showRat)
 
 def showVal : Val → String
   | .item i => showItem i
   | .list xs => "l:" ++ ";".intercalate (xs.map fun x => match x with | .item i => showItem i | _ => "?")
+  | .raised c => "raised:" ++ c
   | .bad => "bad"
 
 def isBad : Val → Bool
@@ -177,7 +205,10 @@ def step (s : St) : List String → St × String
       | .error .dupSource => (s, "err other")
       | .ok run =>
         let (v, env) := (run.run { steps := s.steps }).run
-        if isBad v then (s, "bad-op") else (s, s!"ok {showVal v} {showStrs env.log}")
+        if isBad v then (s, "bad-op")
+        else match v with
+          | .raised c => (s, s!"err raised:{c} {showStrs env.log}")
+          | _ => (s, s!"ok {showVal v} {showStrs env.log}")
     | _, _, _ => (s, "bad-op")
   | _ => (s, "bad-op")
 
